@@ -66,10 +66,13 @@ def default_choice(runnable, cur):
 
 
 class SeqChooser(Chooser):
+    """The reference schedule.  Timers behave as in a discrete-event simulation: a timed wait expires
+    only when no thread can take a real step (time passes only when nothing else can happen)."""
     name = 'seq'
 
     def choose(self, sched, runnable, cur):
-        return default_choice(runnable, cur)
+        real = [t for t in runnable if t.pred is None or t.pred()]
+        return default_choice(real or runnable, cur)
 
 
 class RandomChooser(Chooser):
@@ -246,6 +249,8 @@ class Scheduler:
         self.max_live = 1
         self.harness_error = None
         self.progress = 0
+        self.pollers = set()     # threads whose last timed wait expired and that have only done
+        #                          non-blocking checks since (a polling loop between two polls)
         main = _TState(0, main_name)
         main.state = 'running'
         main.is_main = True
@@ -322,8 +327,9 @@ class Scheduler:
             if p is None or p():
                 out.append(t)
             elif t.deadline is not None and self.progress > t.seen_progress:
-                # fairness: between two expiries of the same thread's timers somebody else has
-                # taken a real step, so a polling loop cannot starve the threads it polls
+                # fairness: between two expiries of the same thread's timers somebody has taken a
+                # real step (not a timer expiry, not a poller's flag check), so polling loops cannot
+                # starve the threads they poll, under any policy
                 out.append(t)
         if not out:
             waiting = [t for t in self.threads if t.state != 'done' and t.deadline is not None]
@@ -347,7 +353,12 @@ class Scheduler:
             self.clock = max(self.clock, chosen.deadline)
             chosen.timed_out = True
             self.count('timeout_fired')
+            self.pollers.add(chosen.id)
+        elif chosen.id in self.pollers and chosen.pred is None:
+            # a poller looking at a flag between two polls: costs nothing, lets nobody else's timer fire
+            pass
         else:
+            self.pollers.discard(chosen.id)
             self.progress += 1
         self.trace.append(chosen.id)
         self.nrunnable.append(len(runnable))
@@ -394,13 +405,18 @@ class Scheduler:
             for t in self.threads:
                 if t is main or t.state == 'done':
                     continue
-                if t.pred is None or t.pred():
-                    return False
+                if t.pred is None or t.pred() or t.deadline is not None:
+                    return False          # can still act (a pending timer will fire)
             return True
+        cap = self.step_cap
+        self.step_cap = min(cap, self.steps + 400)       # a perpetual poller never becomes quiet
         try:
             self.yield_point('drain', pred=others_quiet)
         except (SimDeadlock, SimStepCap):
-            pass
+            self.aborted = False
+            self.abort = None
+        finally:
+            self.step_cap = cap
         return self.steps - before
 
     def kill_all(self):
@@ -600,6 +616,278 @@ class SimQueue:
         if self.unfinished:
             s.count('join_waited:' + self.qname)
         s.yield_point('q.join', pred=lambda: self.unfinished == 0, info=(self.qname,))
+
+
+class SimLifoQueue(SimQueue):
+    def get(self, block=True, timeout=None):
+        s = _current_sched
+        if not block:
+            s.yield_point('q.get_nowait', info=(self.qname,))
+            if not self.items:
+                raise _queue.Empty
+        else:
+            ok = s.yield_point('q.get', pred=lambda: bool(self.items), info=(self.qname,), timeout=timeout)
+            if not ok:
+                raise _queue.Empty
+        return self.items.pop()
+
+
+class SimSimpleQueue(SimQueue):
+    """queue.SimpleQueue: unbounded, no task tracking."""
+
+    def __init__(self):
+        super().__init__(0)
+
+    def task_done(self):
+        raise AttributeError("'SimpleQueue' object has no attribute 'task_done'")
+
+    def join(self):
+        raise AttributeError("'SimpleQueue' object has no attribute 'join'")
+
+
+# --------------------------------------------------------------------------------------------
+# simulated threading primitives (every operation is a decision point; blocking is a predicate
+# evaluated by the scheduler, never a real wait while holding the baton)
+# --------------------------------------------------------------------------------------------
+
+def _yp(kind, pred=None, info=(), timeout=None):
+    """Decision point when a run is active; outside a run (object outlived it) a no-op that reports
+    whether the predicate holds."""
+    s = _current_sched
+    if s is None:
+        return pred is None or bool(pred())
+    return s.yield_point(kind, pred=pred, info=info, timeout=timeout)
+
+
+def _to(timeout):
+    return None if timeout is None or timeout < 0 else timeout
+
+
+class SimLock:
+    def __init__(self):
+        s = _current_sched
+        self._owner = None
+        self.lname = s.new_name('lock') if s is not None else 'lock'
+
+    def _me(self):
+        s = _current_sched
+        return s.cur if s is not None else 'outside'
+
+    def acquire(self, blocking=True, timeout=-1):
+        if not blocking:
+            _yp('l.try', info=(self.lname,))
+            if self._owner is not None:
+                return False
+        else:
+            if self._owner is not None and _current_sched is not None:
+                _current_sched.count('lock_contended')
+            if not _yp('l.acquire', pred=lambda: self._owner is None, info=(self.lname,), timeout=_to(timeout)):
+                return False
+        self._owner = self._me()
+        return True
+
+    def release(self):
+        _yp('l.release', info=(self.lname,))
+        if self._owner is None:
+            raise RuntimeError('release unlocked lock')
+        self._owner = None
+
+    def locked(self):
+        return self._owner is not None
+
+    __enter__ = acquire
+
+    def __exit__(self, *exc):
+        self.release()
+        return False
+
+
+class SimRLock(SimLock):
+    def __init__(self):
+        super().__init__()
+        self._count = 0
+
+    def acquire(self, blocking=True, timeout=-1):
+        me = self._me()
+        if self._owner is me:
+            _yp('l.reenter', info=(self.lname,))
+            self._count += 1
+            return True
+        if not blocking:
+            _yp('l.try', info=(self.lname,))
+            if self._owner is not None:
+                return False
+        elif not _yp('l.acquire', pred=lambda: self._owner is None, info=(self.lname,), timeout=_to(timeout)):
+            return False
+        self._owner = me
+        self._count = 1
+        return True
+
+    def release(self):
+        _yp('l.release', info=(self.lname,))
+        if self._owner is not self._me():
+            raise RuntimeError('cannot release un-acquired lock')
+        self._count -= 1
+        if self._count == 0:
+            self._owner = None
+
+    __enter__ = acquire
+
+    def _release_save(self):
+        st = (self._owner, self._count)
+        self._owner, self._count = None, 0
+        return st
+
+    def _acquire_restore(self, st):
+        _yp('l.acquire', pred=lambda: self._owner is None, info=(self.lname,))
+        self._owner, self._count = st
+
+
+class SimCondition:
+    def __init__(self, lock=None):
+        self._lock = lock if lock is not None else SimRLock()
+        self._waiters = []
+        self.acquire = self._lock.acquire
+        self.release = self._lock.release
+
+    def __enter__(self):
+        return self._lock.__enter__()
+
+    def __exit__(self, *exc):
+        return self._lock.__exit__(*exc)
+
+    def wait(self, timeout=None):
+        if not self._lock.locked():
+            raise RuntimeError('cannot wait on un-acquired lock')
+        token = [False]
+        self._waiters.append(token)
+        if hasattr(self._lock, '_release_save'):
+            st = self._lock._release_save()
+        else:
+            st = None
+            self._lock._owner = None
+        ok = _yp('c.wait', pred=lambda: token[0], timeout=_to(timeout))
+        if not ok and token in self._waiters:
+            self._waiters.remove(token)
+        if st is not None:
+            self._lock._acquire_restore(st)
+        else:
+            _yp('l.acquire', pred=lambda: self._lock._owner is None)
+            self._lock._owner = self._lock._me()
+        return ok
+
+    def wait_for(self, predicate, timeout=None):
+        r = predicate()
+        while not r:
+            if not self.wait(timeout):
+                return predicate()
+            r = predicate()
+        return r
+
+    def notify(self, n=1):
+        if not self._lock.locked():
+            raise RuntimeError('cannot notify on un-acquired lock')
+        _yp('c.notify')
+        for token in self._waiters[:n]:
+            token[0] = True
+        del self._waiters[:n]
+
+    def notify_all(self):
+        self.notify(len(self._waiters))
+
+    notifyAll = notify_all
+
+
+class SimSemaphore:
+    def __init__(self, value=1):
+        if value < 0:
+            raise ValueError('semaphore initial value must be >= 0')
+        self._value = value
+
+    def acquire(self, blocking=True, timeout=None):
+        if not blocking:
+            _yp('s.try')
+            if self._value <= 0:
+                return False
+        elif not _yp('s.acquire', pred=lambda: self._value > 0, timeout=_to(timeout)):
+            return False
+        self._value -= 1
+        return True
+
+    __enter__ = acquire
+
+    def release(self, n=1):
+        _yp('s.release')
+        self._value += n
+
+    def __exit__(self, *exc):
+        self.release()
+        return False
+
+
+class SimBoundedSemaphore(SimSemaphore):
+    def __init__(self, value=1):
+        super().__init__(value)
+        self._initial = value
+
+    def release(self, n=1):
+        if self._value + n > self._initial:
+            raise ValueError('Semaphore released too many times')
+        super().release(n)
+
+
+class SimEvent:
+    def __init__(self):
+        self._flag = False
+
+    def is_set(self):
+        _yp('e.is_set')
+        return self._flag
+
+    isSet = is_set
+
+    def set(self):
+        _yp('e.set')
+        self._flag = True
+
+    def clear(self):
+        _yp('e.clear')
+        self._flag = False
+
+    def wait(self, timeout=None):
+        _yp('e.wait', pred=lambda: self._flag, timeout=_to(timeout))
+        return self._flag
+
+
+class SimBarrier:
+    def __init__(self, parties, action=None, timeout=None):
+        self._parties = parties
+        self._action = action
+        self._count = 0
+        self._gen = 0
+
+    @property
+    def parties(self):
+        return self._parties
+
+    @property
+    def n_waiting(self):
+        return self._count
+
+    def wait(self, timeout=None):
+        _yp('b.arrive')
+        gen = self._gen
+        idx = self._count
+        self._count += 1
+        if self._count == self._parties:
+            if self._action:
+                self._action()
+            self._count = 0
+            self._gen += 1
+            return idx
+        if not _yp('b.wait', pred=lambda: self._gen != gen, timeout=_to(timeout)):
+            raise _threading.BrokenBarrierError
+        return idx
 
 
 # --------------------------------------------------------------------------------------------
